@@ -338,7 +338,10 @@ where
 	}
 }
 
-impl<'a, L> IntoIterator for &'a mut RetryingLockCollection<L>
+// Mutable access is only given out if the collection owns its locks. A
+// collection of references could otherwise be changed to contain a lock twice
+// after `try_new` has checked it.
+impl<'a, L: OwnedLockable> IntoIterator for &'a mut RetryingLockCollection<L>
 where
 	&'a mut L: IntoIterator,
 {
@@ -371,7 +374,7 @@ impl<T: ?Sized, L: AsRef<T>> AsRef<T> for RetryingLockCollection<L> {
 	}
 }
 
-impl<T: ?Sized, L: AsMut<T>> AsMut<T> for RetryingLockCollection<L> {
+impl<T: ?Sized, L: AsMut<T> + OwnedLockable> AsMut<T> for RetryingLockCollection<L> {
 	fn as_mut(&mut self) -> &mut T {
 		self.data.as_mut()
 	}
@@ -481,27 +484,6 @@ impl<L> RetryingLockCollection<L> {
 		&self.data
 	}
 
-	/// Gets a mutable reference to the underlying collection.
-	///
-	/// # Examples
-	///
-	/// ```
-	/// use happylock::{Mutex, ThreadKey};
-	/// use happylock::collection::RetryingLockCollection;
-	///
-	/// let data = (Mutex::new(42), Mutex::new(""));
-	/// let mut lock = RetryingLockCollection::new(data);
-	///
-	/// let key = ThreadKey::get().unwrap();
-	/// let mut inner = lock.child_mut();
-	/// let guard = inner.0.get_mut();
-	/// assert_eq!(*guard, 42);
-	/// ```
-	#[must_use]
-	pub fn child_mut(&mut self) -> &mut L {
-		&mut self.data
-	}
-
 	/// Gets the underlying collection, consuming this collection.
 	///
 	/// # Examples
@@ -521,6 +503,32 @@ impl<L> RetryingLockCollection<L> {
 	#[must_use]
 	pub fn into_child(self) -> L {
 		self.data
+	}
+}
+
+impl<L: OwnedLockable> RetryingLockCollection<L> {
+	/// Gets a mutable reference to the underlying collection.
+	///
+	/// This is only available if the collection owns its locks. Otherwise, the
+	/// collection could be changed to contain the same lock twice.
+	///
+	/// # Examples
+	///
+	/// ```
+	/// use happylock::{Mutex, ThreadKey};
+	/// use happylock::collection::RetryingLockCollection;
+	///
+	/// let data = (Mutex::new(42), Mutex::new(""));
+	/// let mut lock = RetryingLockCollection::new(data);
+	///
+	/// let key = ThreadKey::get().unwrap();
+	/// let mut inner = lock.child_mut();
+	/// let guard = inner.0.get_mut();
+	/// assert_eq!(*guard, 42);
+	/// ```
+	#[must_use]
+	pub fn child_mut(&mut self) -> &mut L {
+		&mut self.data
 	}
 }
 
@@ -844,7 +852,7 @@ where
 	}
 }
 
-impl<'a, L: 'a> RetryingLockCollection<L>
+impl<'a, L: OwnedLockable + 'a> RetryingLockCollection<L>
 where
 	&'a mut L: IntoIterator,
 {
